@@ -47,13 +47,14 @@ const (
 )
 
 var hIP6 = []netip.Addr{
-	netip.MustParseAddr("fe80::aa"),      // 0 LLA x
-	netip.MustParseAddr("fe80::bb"),      // 1 LLA y
-	netip.MustParseAddr("2001:db8::aa"),  // 2 GUA g1
-	netip.MustParseAddr("2001:db8::bb"),  // 3 GUA g2
-	netip.MustParseAddr("ff02::1"),       // 4 multicast
-	netip.MustParseAddr("::"),            // 5 unspecified
-	netip.MustParseAddr("fd00::1234:aa"), // 6 ULA (global unicast by netip's definition)
+	netip.MustParseAddr("fe80::aa"),           // 0 LLA x
+	netip.MustParseAddr("fe80::bb"),           // 1 LLA y
+	netip.MustParseAddr("2001:db8::aa"),       // 2 GUA g1
+	netip.MustParseAddr("2001:db8::bb"),       // 3 GUA g2
+	netip.MustParseAddr("ff02::1"),            // 4 multicast
+	netip.MustParseAddr("::"),                 // 5 unspecified
+	netip.MustParseAddr("fd00::1234:aa"),      // 6 ULA (global unicast by netip's definition)
+	netip.MustParseAddr("::ffff:192.168.0.5"), // 7 IPv4-mapped form of an on-LAN IPv4 address: a distinct key from 192.168.0.5
 }
 
 type histCfg struct {
@@ -368,15 +369,15 @@ func histFrame(cfg histCfg, o hOp) []byte {
 // ---- interpreter
 
 type histOracles struct {
-	Tables  bool // C04: FindIP/GetHosts/IPAddrs/FindByMAC/FindMACEntry == model
-	Invar   bool // C05: structural invariants + PrintTable
-	Notes   bool // C06: notification transcript == model
+	Tables  bool                                                         // C04: FindIP/GetHosts/IPAddrs/FindByMAC/FindMACEntry == model
+	Invar   bool                                                         // C05: structural invariants + PrintTable
+	Notes   bool                                                         // C06: notification transcript == model
 	Monitor func(step int, op hOp, frames []sentFrame) (sig, msg string) // C07: frames emitted by the step
 }
 
 type histResult struct {
 	IPChange, Rebind, PurgeChanged, Excluded, OfflineNote, Shrunk, NameChange bool
-	Steps                                                                    int
+	Steps                                                                     int
 }
 
 var nameSrcType = []string{"dhcp4", "mdns", "ssdp", "llmnr", "nbns"}
@@ -569,7 +570,9 @@ func runHistory(tb drv.TB, rec *drv.Rec, sub string, h history, or histOracles) 
 			}
 			panicked, psig, pst = drv.Catch(func() { s.VerifPurge(vbase.Add(m.now)) })
 		case "offer":
-			panicked, psig, pst = drv.Catch(func() { s.SetDHCPv4IPOffer(hwOf(hMACs[op.Src]), h.Cfg.ip4(op.New), packet.NameEntry{Type: "dhcp4", Name: op.Name}) })
+			panicked, psig, pst = drv.Catch(func() {
+				s.SetDHCPv4IPOffer(hwOf(hMACs[op.Src]), h.Cfg.ip4(op.New), packet.NameEntry{Type: "dhcp4", Name: op.Name})
+			})
 			if me := m.macs[hMACs[op.Src]]; me == nil {
 				m.macs[hMACs[op.Src]] = &mMAC{mac: hMACs[op.Src], ip4: netip.MustParseAddr("0.0.0.0")}
 			}
